@@ -21,6 +21,7 @@ import (
 	"math/big"
 	"os"
 	"path/filepath"
+	"strings"
 	"time"
 )
 
@@ -51,6 +52,7 @@ type material struct {
 
 	srv     map[string]*tls.Certificate // "A/srv.test"
 	srvConf map[string]*tls.Config      // scenario name -> server configuration
+	content map[string][]byte           // "<slot>-<name>" -> file content (history sweeps rewrite files in place)
 }
 
 // wrappedSigner is a private key of a type TLSClientAuth has never heard of
@@ -240,14 +242,17 @@ func genMaterial() (*material, error) {
 		"key-kD1.pem":      p8(m.keys["D1"]),
 		"key-garbage.pem":  junk,
 		"ca-A.pem":         pemCert(m.caCert["A"]),
+		"ca-B.pem":         pemCert(m.caCert["B"]),
 		"ca-AB.pem":        pemCert(m.caCert["A"], m.caCert["B"]),
 		"ca-garbage.pem":   junk,
 		"ca-mixed.pem":     mixed,
 	}
+	m.content = map[string][]byte{}
 	for n, b := range files {
 		if err := w(n, b); err != nil {
 			return m, err
 		}
+		m.content[strings.TrimSuffix(n, ".pem")] = b
 	}
 	for _, d := range []string{"cert-dir.pem", "key-dir.pem", "ca-dir.pem"} {
 		if err := os.Mkdir(filepath.Join(dir, d), 0o755); err != nil {
